@@ -4,9 +4,15 @@
   the function the translator produced from the CURRENT source is, for all inputs, the hand-written model function that the property
   theorems are about. A change to one of these Python functions changes the generated definition and breaks a theorem here
   statically, without needing a test input. (Split per source area so that a change in one area does not alarm unrelated properties.)
+  The proofs close with `tie_close` (Props/TieRobC.lean): reflexivity first, then normalisation of both sides and a case analysis, so
+  that a behaviour-preserving reshaping of the Python (renamed / inlined locals, early `return` vs conditional expression, negated
+  test with swapped branches, `for _ in range(k)` vs the unrolled calls, …) keeps the theorem, while a real change fails in seconds.
 -/
+import PyEcc.Props.TieRobC
 import PyEcc.Gen.ExtraSwu
 import PyEcc.Gen.ExtraCodec
+
+set_option linter.unusedSimpArgs false
 
 namespace PyEcc.Tie
 open PyEcc
@@ -15,29 +21,29 @@ open PyEcc
 theorem multiply_clear_cofactor_G1_eq (p : F1 × F1 × F1) :
     Gen.ExtraSwu.multiply_clear_cofactor_G1 p = clearCofactorG1 p := by
   unfold Gen.ExtraSwu.multiply_clear_cofactor_G1 clearCofactorG1
-  with_reducible rfl
+  tie_close [ne_eq, ite_not]
 
 /-- `multiply_clear_cofactor_G2(p)` as translated from the source is the model's `clearCofactorG2`. -/
 theorem multiply_clear_cofactor_G2_eq (p : F2 × F2 × F2) :
     Gen.ExtraSwu.multiply_clear_cofactor_G2 p = clearCofactorG2 p := by
   unfold Gen.ExtraSwu.multiply_clear_cofactor_G2 clearCofactorG2
-  with_reducible rfl
+  tie_close [ne_eq, ite_not]
 
 /-- `clear_cofactor_G1(p)` is `multiply_clear_cofactor_G1(p)`, i.e. the model's `clearCofactorG1`. -/
 theorem clear_cofactor_G1_eq (p : F1 × F1 × F1) : Gen.ExtraSwu.clear_cofactor_G1 p = clearCofactorG1 p := by
   unfold Gen.ExtraSwu.clear_cofactor_G1
-  with_reducible rfl
+  tie_close [ne_eq, ite_not]
 
 /-- `clear_cofactor_G2(p)` is `multiply_clear_cofactor_G2(p)`, i.e. the model's `clearCofactorG2`. -/
 theorem clear_cofactor_G2_eq (p : F2 × F2 × F2) : Gen.ExtraSwu.clear_cofactor_G2 p = clearCofactorG2 p := by
   unfold Gen.ExtraSwu.clear_cofactor_G2
-  with_reducible rfl
+  tie_close [ne_eq, ite_not]
 
 /-- `subgroup_check(P)` = `is_inf(multiply(P, curve_order))` as translated from the source is the model's
     `subgroupCheck` (over any coordinate type). -/
 theorem subgroup_check_eq {F : Type} [Zero F] [One F] [Add F] [Sub F] [Mul F] [Neg F] [Div F] [NatCast F] [Pow F Nat]
     [DecidableEq F] (pt : F × F × F) : Gen.ExtraCodec.subgroup_check pt = subgroupCheck pt := by
   unfold Gen.ExtraCodec.subgroup_check subgroupCheck blsR
-  with_reducible rfl
+  tie_close [ne_eq, ite_not]
 
 end PyEcc.Tie
